@@ -50,7 +50,7 @@ def strategy(tier):
         "when": st.sampled_from(["after-init", "after-init", "before-init", "before-reinit", "before-cleanup-init",
                                  "after-abandoned-pilot"]),
         "direct": st.booleans(),
-        "fault_kind": st.sampled_from(["msg", "msg", "msg", "noargs", "stopiteration", "assert", "keyerror",
+        "fault_kind": st.sampled_from(["msg", "msg", "msg", "bad-kwargs", "noargs", "stopiteration", "assert", "keyerror",
                                        "odd-message", "non-str-arg", "base", "bad-request", "bad-request"]),
         "drive": st.sampled_from(["start", "bounded", "step", "mixed"]),
         "cuts": st.lists(st.integers(0, 9), min_size=1, max_size=4),
@@ -199,6 +199,15 @@ def _one_run(out, prog, strat, drive, cuts, mix, tag, log_level=None, prev=None,
             if h.sim.run_state.name != want:
                 out.fail("state-%s-strategy%d" % (c[0], strat),
                          {"tag": tag, "got": h.sim.run_state.name, "want": want})
+            # consistent: the replication has started (once) whether or not the handler of the first command failed
+            nsr = sum(1 for e in h.rec.log if e[0] == "START_REPLICATION")
+            if nsr != 1:
+                out.fail("start-replication-notified-%d-times-%s-strategy%d" % (min(nsr, 2), c[0], strat),
+                         {"tag": tag, "notifications": [e[0] for e in h.rec.log][:12]})
+            want_rep = "ENDED" if ref.ended else "STARTED"
+            if h.sim.replication_state.name != want_rep:
+                out.fail("replication-state-%s-strategy%d" % (c[0], strat),
+                         {"tag": tag, "got": h.sim.replication_state.name, "want": want_rep})
             if not ref.ended:
                 n_sut = h.sim.eventlist().size()
                 if n_sut != len(ref.pending):
